@@ -1308,6 +1308,36 @@ func directedSubscribeVsPublish(w *mon.Worker, rng *mon.Rng) {
 	sc.finish(nil)
 }
 
+// a waiter that has just been woken by an insufficient head is held before it
+// looks at its channel again, while an insufficient and then the awaited head
+// are delivered: the awaited head must not be lost behind the unread one.
+func directedWokenWaiterVsTwoHeads(w *mon.Worker, rng *mon.Rng) {
+	sc, drv, release := oneConn(w, "directed/woken-waiter-x-two-more-heads", rng, 100)
+	defer release()
+	sc.desc["schedule"] = "waiter for 103 is woken by 101 and held at wait.head; 102 and 103 are published and notified; the waiter is released; nothing else is published: it must return ok"
+	g := sc.hold("w", "wait.head", 1, 5*time.Second)
+	sc.maxPlan = ms(1200)
+	sc.spawn("w", "w0", &sc.wgW, func(a *actor) { sc.doWait(a, 103, ms(1200), -1) })
+	sc.awaitCount("subscribe.compared", 1, time.Second)
+	time.Sleep(ms(5))
+	sc.doSet(drv, 0, 101)
+	select {
+	case <-g.reached:
+	case <-time.After(5 * time.Second):
+		w.Inconclusive("directed schedule: the waiter never reached wait.head")
+		g.open()
+		sc.finish(nil)
+		return
+	}
+	n0 := sc.count("notify.send")
+	sc.doSet(drv, 0, 102)
+	sc.doSet(drv, 0, 103)
+	sc.desc["both_notified"] = sc.awaitCount("notify.send", n0+2, 300*time.Millisecond)
+	time.Sleep(ms(20))
+	g.open()
+	sc.finish(nil)
+}
+
 // the update channel (10 slots) is full and a publisher of the best connection
 // is parked in SetMasterHead x a new waiter subscribes x the Run loop goes on
 // to its next notification.
@@ -1376,6 +1406,7 @@ func directedCases(thorough bool) []directedCase {
 		}
 		cs = append(cs, directedCase{"frequent-heads", directedFrequentHeads})
 		cs = append(cs, directedCase{"subscribe-vs-publish", directedSubscribeVsPublish})
+		cs = append(cs, directedCase{"woken-waiter-vs-two-heads", directedWokenWaiterVsTwoHeads})
 		cs = append(cs, directedCase{"full-channel-vs-subscribe", directedFullChannelVsSubscribe})
 	}
 	pairs := [][2]string{{"unsubscribe.enter", "notify.send"}, {"subscribe.compared", "sethead.publish"}}
